@@ -34,7 +34,12 @@ RULE = ("tx: packets of 1..70 random / all-ones / stuffing-boundary bytes, tx_da
         "and idle garbage, tx_valid toggling at random usb cycles, and inputs changing in arbitrary usb_io cycles.  "
         "rx: `encode` waveforms (and waveforms with a "
         "seventh 1 inserted) resampled at 4x with sampling phase 0..3 (+fraction) and clock offsets 0, +-0.1%, "
-        "+-0.25%, random idle gaps; delivered bytes compared with the Lean `decode`.  glue: random op_mode / "
+        "+-0.25%, random idle gaps; delivered bytes compared with the Lean `decode`.  rxc: the cycle-level Lean model "
+        "of the receive chain (`FsRx.step`) against the real RxPipeline usb_io cycle by usb_io cycle on 21 signals (the "
+        "ports of RxClockDataRecovery, RxNRZIDecoder, RxPacketDetect, RxBitstuffRemover, RxShifter, the write ports of "
+        "both clock-domain-crossing FIFOs, o_receive_error); stimulus: nominal-rate packets (good / seventh 1) in all "
+        "four sampling phases, the same with clock offsets up to +-10% and truncated / non-byte-multiple packets and "
+        "gaps down to 0 bit times, single-cycle glitches incl. SE1, and random line states.  glue: random op_mode / "
         "tx_valid / term_select / pull-down requests every 12 MHz cycle")
 ASSUMPTIONS = [
     "the UTMI producer keeps tx_valid and the byte stable until tx_ready and drops tx_valid after the last tx_ready "
@@ -372,6 +377,12 @@ def gen_cases(tier, rng):
         out.append({"kind": "txc" if k % 3 else "txp", "seed": rng.u64(), "k": k, "phase": k % 4,
                     "mode": ["packets", "packets", "random", "packets", "async"][k % 5],
                     "cycles": 1200 if tier != "thorough" else 3000, "big": int(tier == "thorough" and k % 8 == 0)})
+    # cycle-level receive model: the bare RxPipeline, usb_io cycle by usb_io cycle
+    nr = {"quick": 12, "widen": 40}.get(tier, 160)
+    for k in range(nr):
+        out.append({"kind": "rxc", "seed": rng.u64(), "k": k,
+                    "mode": ["nominal", "drift", "nominal", "noise", "nominal", "random"][k % 6],
+                    "big": int(tier == "thorough" and k % 8 == 0)})
     return out
 
 
@@ -740,5 +751,217 @@ def run_txcycle(desc):
                 ["tx_ready", "d_p.o", "d_n.o", "oe", "fit_dat", "fit_oe"])
 
 
+# ------------------------------------------------------------------------------------------------ cycle-level rx
+_RX_SPIED = ["RxClockDataRecovery", "RxNRZIDecoder", "RxPacketDetect", "RxBitstuffRemover", "RxShifter",
+             "AsyncFIFOBuffered"]
+
+
+def build_rx_pipeline():
+    """The real RxPipeline plus handles on the sub-blocks it creates inside `elaborate` (their ports are ordinary
+    attributes, but the instances are locals of `elaborate`): the classes are wrapped, for the duration of the
+    elaboration only, by subclasses that remember their instances.  Nothing of the gateware is changed."""
+    from amaranth.sim import Simulator
+    import luna.gateware.interface.gateware_phy.receiver as R
+    cap = {}
+    orig = {n: getattr(R, n) for n in _RX_SPIED}
+
+    def mk(name, cls):
+        class Spy(cls):
+            def __init__(self, *a, **k):
+                super().__init__(*a, **k)
+                cap.setdefault(name, []).append(self)
+        Spy.__name__ = cls.__name__
+        Spy.__qualname__ = cls.__qualname__
+        return Spy
+
+    for n in _RX_SPIED:
+        setattr(R, n, mk(n, orig[n]))
+    try:
+        dut = R.RxPipeline()
+        top = sim._Wrap(dut, ["usb_io", "usb"])
+        s = Simulator(top)          # elaborates
+    finally:
+        for n in _RX_SPIED:
+            setattr(R, n, orig[n])
+    assert all(len(cap.get(n, [])) == (2 if n == "AsyncFIFOBuffered" else 1) for n in _RX_SPIED), \
+        "RxPipeline no longer instantiates the expected sub-blocks: %s" % {k: len(v) for k, v in cap.items()}
+    return dut, s, cap
+
+
+def bad_stuff_wave(rng):
+    """SYNC, some correctly stuffed bytes, then a 0 and seven 1s (never stuffed), padding, EOP"""
+    pre = rng.bytes(rng.range(0, 3))
+    bits = [0] * 7 + [1]
+    ones = 1
+    for byte in pre:
+        for i in range(8):
+            bit = (byte >> i) & 1
+            bits.append(bit)
+            ones = ones + 1 if bit else 0
+            if ones == 6:
+                bits.append(0)
+                ones = 0
+    bits += [0] + [1] * 7 + [0] * rng.range(0, 9)
+    return nrzi_syms(bits) + [SE0, SE0, J]
+
+
+def rxc_stimulus(rng, mode, big):
+    """per-usb_io-cycle symbols (0 = SE0, 1 = J, 2 = K, 3 = SE1) and, for mode "nominal", the list of
+    (kind, bytes) of the packets on the line"""
+    if mode == "random":
+        out, cur = [], J
+        p = rng.choice([3, 10, 25, 60])
+        for _ in range(1500):
+            if rng.chance(p):
+                cur = rng.weighted([(4, J), (4, K), (2, SE0), (1, 3)])
+            out.append(cur)
+        return out, None
+    ideal = [J] * rng.range(4, 12)
+    metas = []
+    for _ in range(rng.range(2, 5)):
+        kind = rng.weighted([(6, "good"), (2, "violation"), (1, "truncated"), (1, "odd")])
+        if mode == "nominal" and kind in ("truncated", "odd"):
+            kind = "good"
+        p = gen_bytes(rng, 40 if big else 12)
+        if kind == "good":
+            w = py_encode(p)
+        elif kind == "violation":
+            w = bad_stuff_wave(rng)
+        elif kind == "truncated":
+            w = py_encode(p)
+            w = w[:rng.range(1, len(w) - 3)] + [SE0, SE0, J]
+        else:
+            w = py_encode(p)
+            cut = rng.range(1, 7)
+            w = w[:-3 - cut] + [SE0, SE0, J]
+        metas.append((kind, p))
+        # nominal: at least 4 bit times of idle between packets (ASSUMPTIONS); otherwise also shorter gaps
+        ideal += w + [J] * (rng.range(4, 30) if mode == "nominal" else rng.weighted([(3, rng.range(4, 30)), (1, rng.range(0, 3))]))
+    ideal += [J] * 6
+    if mode == "nominal":
+        return resample(ideal, rng.below(4), 0), metas
+    if mode == "drift":
+        return resample(ideal, rng.below(4) + rng.below(100) / 100.0,
+                        rng.choice([1000, -1000, 2500, -2500, 20000, -20000, 100000, -100000])), None
+    samples = resample(ideal, rng.below(4), rng.choice([0, 0, 2500, -2500]))
+    # noise: single-cycle glitches on one or both lines
+    for _ in range(rng.range(1, 12)):
+        i = rng.below(len(samples))
+        samples[i] = rng.choice([SE0, J, K, 3])
+    return samples, None
+
+
+def run_rxcycle(desc):
+    """kind "rxc": the real RxPipeline compared usb_io cycle by usb_io cycle with the Lean model `FsRx.step`
+    (Lean sub-model 5) on the ports of every sub-block, the write ports of the two clock-domain-crossing FIFOs and
+    the latched receive error.  The monitor states the property on what is written into the FIFOs."""
+    rng = Rng(desc["seed"])
+    mode = desc.get("mode", "nominal")
+    metas = None
+    if desc.get("stimulus"):
+        rows = [list(r) for r in desc["stimulus"]]
+    else:
+        samples, metas = rxc_stimulus(rng.fork("stim"), mode, desc.get("big", 0))
+        rows = [[1 if x in (J, 3) else 0, 1 if x in (K, 3) else 0] for x in samples]
+    dut, s, cap = build_rx_pipeline()
+    cdr, nr, det = cap["RxClockDataRecovery"][0], cap["RxNRZIDecoder"][0], cap["RxPacketDetect"][0]
+    bs, sh = cap["RxBitstuffRemover"][0], cap["RxShifter"][0]
+    pf, ff = cap["AsyncFIFOBuffered"]
+    assert len(pf.w_data) == 8 and len(ff.w_data) == 2
+    outs = [cdr.line_state_valid, cdr.line_state_dj, cdr.line_state_dk, cdr.line_state_se0, cdr.line_state_se1,
+            nr.o_valid, nr.o_data, nr.o_se0, det.o_pkt_start, det.o_pkt_active, det.o_pkt_end,
+            bs.o_data, bs.o_stall, bs.o_error, sh.o_put, sh.o_data, pf.w_en, pf.w_data, ff.w_en, ff.w_data,
+            dut.o_receive_error]
+    P = 1e-6
+    s.add_clock(P, domain="usb_io")
+    s.add_clock(4 * P, phase=P / 2 + desc.get("k", 0) % 4 * P, domain="usb")
+    outputs = []
+    ovf = []
+
+    async def tb(ctx):
+        for k, r in enumerate(rows):
+            ctx.set(dut.i_usbp, r[0])
+            ctx.set(dut.i_usbn, r[1])
+            o = [ctx.get(x) for x in outs]
+            if (o[16] and not ctx.get(pf.w_rdy)) or (o[18] and not ctx.get(ff.w_rdy)):
+                ovf.append(k)
+            outputs.append(o)
+            await ctx.tick("usb_io")
+
+    s.add_testbench(tb)
+    s.run()
+    fails = []
+    tags = {"rxc", "rxc:" + mode}
+    # events written into the clock-domain crossing, in order
+    ev = []
+    for k, o in enumerate(outputs):
+        if o[18]:
+            ev.append((k, "start" if o[19] & 2 else "end", o[19]))
+        if o[16]:
+            ev.append((k, "byte", o[17]))
+    if any(o[13] for o in outputs):
+        tags.add("rxc:bitstuff-error-strobe")
+    if any(o[20] for o in outputs):
+        tags.add("rxc:error-latched")
+    if any(o[4] for o in outputs):
+        tags.add("rxc:se1")
+    if any(e[1] == "byte" for e in ev):
+        tags.add("rxc:bytes")
+    if ovf and mode != "random":
+        fails.append({"cycle": ovf[0], "sig": "rxc-fifo-overflow", "what": "a write into the clock-domain crossing "
+                      "FIFO while it was full (usb_io cycle %d)" % ovf[0]})
+    if metas is not None:
+        # nominal rate: the property, on what goes into the clock-domain crossing
+        want = []
+        for kind, p in metas:
+            want.append(("start", None))
+            if kind == "good":
+                want += [("byte", b) for b in p]
+            else:
+                want.append(("…", None))
+            want.append(("end", None))
+        # split observed events into packets
+        pk, cur = [], None
+        for (k, what, v) in ev:
+            if what == "start":
+                cur = {"k": k, "bytes": [], "end": None}
+                pk.append(cur)
+            elif cur is None or cur["end"] is not None:
+                fails.append({"cycle": k, "sig": "rxc-event-outside-packet", "what": "%s written into the "
+                              "clock-domain crossing outside of a packet (usb_io cycle %d)" % (what, k)})
+            elif what == "byte":
+                cur["bytes"].append(v)
+            else:
+                cur["end"] = k
+        if len(pk) != len(metas):
+            fails.append({"cycle": 0, "sig": "rxc-packet-count", "what": "%d packet starts for %d packets on the line"
+                          % (len(pk), len(metas))})
+        for (kind, p), got in zip(metas, pk):
+            nxt = min([q["k"] for q in pk if q["k"] > got["k"]] + [len(outputs)])
+            err = [k for k in range(got["k"] + 1, nxt) if outputs[k][20]]
+            if got["end"] is None:
+                fails.append({"cycle": got["k"], "sig": "rxc-no-end", "what": "packet start without packet end"})
+            if kind == "good":
+                tags.add("rxc:good-packet")
+                if got["bytes"] != p:
+                    fails.append({"cycle": got["k"], "sig": "rxc-bytes", "what": "bytes written into the clock-domain "
+                                  "crossing %s != packet %s" % (got["bytes"], p)})
+                if err:
+                    fails.append({"cycle": err[0], "sig": "rxc-error-on-good-packet", "what":
+                                  "o_receive_error during / after a correctly encoded packet %s" % p})
+            elif kind == "violation":
+                tags.add("rxc:violation")
+                if got["end"] is not None and not all(outputs[k][20] for k in range(got["end"], nxt)):
+                    fails.append({"cycle": got["end"], "sig": "rxc-stuff-error-not-latched", "what":
+                                  "seven consecutive 1s: o_receive_error is not held from the end of the packet "
+                                  "to the next packet start"})
+    d = dict(desc)
+    return Case([5], rows, outputs, fails[:5], sorted(tags), d, ["i_usbp", "i_usbn"],
+                ["ls_valid", "ls_dj", "ls_dk", "ls_se0", "ls_se1", "nrzi.o_valid", "nrzi.o_data", "nrzi.o_se0",
+                 "pkt_start", "pkt_active", "pkt_end", "bs.o_data", "bs.o_stall", "bs.o_error", "sh.o_put",
+                 "sh.o_data", "payload.w_en", "payload.w_data", "flags.w_en", "flags.w_data", "o_receive_error"])
+
+
 def run_case(desc):
-    return {"tx": run_tx, "rx": run_rx, "glue": run_glue, "txc": run_txcycle, "txp": run_txcycle}[desc["kind"]](desc)
+    return {"tx": run_tx, "rx": run_rx, "glue": run_glue, "txc": run_txcycle, "txp": run_txcycle,
+            "rxc": run_rxcycle}[desc["kind"]](desc)
